@@ -49,17 +49,26 @@ var lieFields = map[string][]string{
 		"tx.result.log", "tx.result.events",
 		"tx.proof.root_hash", "tx.proof.data_byte", "tx.proof.leaf_hash", "tx.proof.aunt_byte", "tx.proof.index", "tx.proof.total",
 		"total_count", "drop_one",
-		"tx.proof.restate_eq_total", "tx.proof.restate_index", "tx.proof.restate_total", "tx.proof.transplant_aunts", "tx.proof.transplant_proof"},
+		"tx.proof.restate_eq_total", "tx.proof.restate_index", "tx.proof.restate_total", "tx.proof.transplant_aunts", "tx.proof.transplant_proof",
+		"forge_hit", "total_count_zero", "total_count_less"},
 	"block_results": {"height", "tx.code", "tx.data", "tx.gas_wanted", "tx.gas_used", "tx.log", "tx.info", "tx.events", "tx.codespace",
 		"tx_drop", "tx_add", "tx_swap", "begin_events", "end_events", "val_updates", "param_updates", "other_height", "tx_nil"},
 	"abci_query": {"value_byte", "value_nil", "key_byte", "height", "code", "log", "index",
 		"proof.drop_first", "proof.drop_last", "proof.op_data_byte", "proof.op_type", "proof.op_key", "proof.nil", "proof.swap",
-		"forged_store", "other_key", "other_height", "proof.restate_index", "proof.restate_total"},
+		"forged_store", "other_key", "other_height", "proof.restate_index", "proof.restate_total",
+		// value + membership proof of ANOTHER existing key presented under the requested key
+		"transplant.prefix", "transplant.extension", "transplant.urlvariant", "transplant.other"},
 	"consensus_params": {"block.max_bytes", "block.max_gas", "block.time_iota_ms", "evidence.max_age_num_blocks", "evidence.max_age_duration",
 		"evidence.max_bytes", "validator.pub_key_types", "version.app_version", "height", "other_height"},
 	"blockchain": {"last_height", "meta.blockid.hash", "meta.blockid.parts", "meta.header.app_hash", "meta.header.height", "meta.header.time",
 		"meta.header.data_hash", "meta.block_size", "meta.num_txs", "meta_drop", "meta_nil"},
 	"status": {"latest_height"},
+}
+
+// lieFields2: control fields that may be falsified TOGETHER with the primary lie of the same
+// response (numbers a client might base a decision on; uncovered by themselves).
+var lieFields2 = map[string][]string{
+	"tx_search": {"total_count_zero", "total_count_zero", "total_count_less", "total_count"},
 }
 
 func flip(b []byte, i, x int) []byte {
@@ -89,6 +98,13 @@ type liar struct {
 
 func (l *liar) take(method string) *lie {
 	if li := l.s.lie; li != nil && !li.fired && li.method == method {
+		return li
+	}
+	return nil
+}
+
+func (l *liar) take2(method string) *lie {
+	if li := l.s.lie2; li != nil && !li.fired && li.method == method {
 		return li
 	}
 	return nil
@@ -523,11 +539,28 @@ func (l *liar) restateTx(li *lie, field string, r *ctypes.ResultTx) {
 
 func (l *liar) TxSearch(ctx context.Context, query string, prove bool, page, perPage *int, orderBy string) (*ctypes.ResultTxSearch, error) {
 	res, err := l.honest.TxSearch(ctx, query, prove, page, perPage, orderBy)
-	if li := l.take("tx_search"); li != nil && err == nil && res != nil {
+	if err != nil || res == nil {
+		return res, err
+	}
+	for _, li := range []*lie{l.take("tx_search"), l.take2("tx_search")} {
+		if li == nil {
+			continue
+		}
 		before := canonTxSearch(res)
 		switch {
 		case li.field == "total_count":
 			res.TotalCount += li.x%3 + 1
+		case li.field == "total_count_zero":
+			res.TotalCount = 0
+		case li.field == "total_count_less":
+			if res.TotalCount = len(res.Txs) - 1 - li.x%2; res.TotalCount < 0 {
+				res.TotalCount = 0
+			}
+		case li.field == "forge_hit":
+			res.Txs = append(append([]*ctypes.ResultTx{}, res.Txs...), l.forgedHit(li, prove))
+			if li.fix >= 1 {
+				res.TotalCount++
+			}
 		case len(res.Txs) == 0:
 		case li.field == "drop_one":
 			k := li.i % len(res.Txs)
@@ -539,6 +572,21 @@ func (l *liar) TxSearch(ctx context.Context, query string, prove bool, page, per
 		l.fire(li, before, canonTxSearch(res), fmt.Sprintf("tx_search.%s fix=%d prove=%v", li.field, li.fix, prove))
 	}
 	return res, err
+}
+
+// forgedHit: a search hit for a transaction that was never committed, with a proof that is
+// consistent in itself (a one-leaf tree over the forged tx).
+func (l *liar) forgedHit(li *lie, prove bool) *ctypes.ResultTx {
+	tx := types.Tx(fmt.Sprintf("forged%d=%d", li.i, li.x))
+	r := &ctypes.ResultTx{Hash: tx.Hash(), Height: l.s.otherHeight(-1, li.i), Index: 0, Tx: tx,
+		TxResult: abci.ResponseDeliverTx{Data: []byte("r"), GasWanted: 1, GasUsed: 1}}
+	if prove {
+		r.Proof = types.Txs{tx}.Proof(0)
+		if tb := l.s.ch.Blocks[r.Height]; tb != nil && li.fix >= 2 {
+			r.Proof.RootHash = tb.DataHash // claims the real data hash as its root
+		}
+	}
+	return r
 }
 
 // ---------------------------------------------------------------- block results
@@ -665,6 +713,16 @@ func (l *liar) ABCIQueryWithOptions(ctx context.Context, path string, data tmbyt
 				f := buildSnap(sn.h, kv, sn.chain)
 				r.Value = nv
 				r.ProofOps = f.proofOps(string(r.Key))
+			}
+		case "transplant.prefix", "transplant.extension", "transplant.urlvariant", "transplant.other":
+			// the answer keeps the requested key; value and proof are those of another key
+			if ok := l.s.relatedKey(r.Height, string(r.Key), li.field[len("transplant."):], li.i); ok != "" {
+				if x, err := l.honest.ABCIQueryWithOptions(ctx, path, []byte(ok), rpcclient.ABCIQueryOptions{Height: r.Height, Prove: true}); err == nil && x.Response.Value != nil {
+					r.Value, r.ProofOps = x.Response.Value, x.Response.ProofOps
+					if li.fix >= 2 {
+						r.Index = x.Response.Index
+					}
+				}
 			}
 		case "other_key":
 			if ok := l.s.otherKey(r.Height, string(r.Key), li.i); ok != "" {
